@@ -64,6 +64,7 @@ class Repo:
         self.overrides = overrides or {}
         self.sources: dict[str, str] = {}
         self.trees: dict[str, ast.Module] = {}
+        self.raw_trees: dict[str, ast.Module] = {}
         self.functions: dict[str, FuncInfo] = {}
         self.classes: dict[str, ClassInfo] = {}
         self.by_name: dict[str, list[FuncInfo]] = {}
@@ -100,6 +101,14 @@ class Repo:
                 tree = ast.parse(src, filename=rel)
             except SyntaxError as error:
                 raise AnalysisError(f"syntax error in {rel}: {error}") from error
+            if not os.environ.get("I2NSA_NO_CANON"):
+                from . import canon
+
+                canon.install()
+                self.raw_trees[rel] = ast.parse(src, filename=rel)
+                tree = canon.normalize(tree)
+            else:
+                self.raw_trees[rel] = tree
             self.trees[rel] = tree
             self._index_module(rel, tree)
 
